@@ -493,6 +493,16 @@ func (c *Ctx) noteMetaWrite(s *Shadow, what string) {
 }
 
 func (c *Ctx) noteDataWrite(s *Shadow, what string) {
+	// a tensor laid over a watched array (package-level data, a field of the Model): the write reaches that array
+	if len(c.watchArrs) > 0 && !s.ids.IsScalar() {
+		if sd, ok := s.ids.Data().([]int64); ok && len(sd) > 0 {
+			for a, name := range c.watchArrs {
+				if len(a.ids) > 0 && uintptrOf(&sd[0]) >= uintptrOf(&a.ids[0]) && uintptrOf(&sd[0]) <= uintptrOf(&a.ids[len(a.ids)-1]) {
+					c.writes = append(c.writes, fmt.Sprintf("%s (through a tensor laid over it): %s @ %s", name, what, c.where()))
+				}
+			}
+		}
+	}
 	if len(c.protected) == 0 {
 		return
 	}
